@@ -152,7 +152,10 @@ func newMockTransport() *transport {
 
 // ---------------------------------------------------------------- websocket
 
-func newWSTransport() *transport {
+func newWSTransport() *transport { return newWSTransportWith(0) }
+
+// newWSTransportWith: writeDeadline > 0 configures the router's per-write deadline.
+func newWSTransportWith(writeDeadline time.Duration) *transport {
 	var (
 		addr    address.Address
 		clients = map[string]freighter.StreamClient[Req, Res]{}
@@ -166,7 +169,7 @@ func newWSTransport() *transport {
 			}
 			addr = address.Address(ln.Addr().String() + "/c14")
 			app := fiber.New(fiber.Config{})
-			router, err := fhttp.NewRouter(fhttp.RouterConfig{})
+			router, err := fhttp.NewRouter(fhttp.RouterConfig{StreamWriteDeadline: writeDeadline})
 			if err != nil {
 				return err
 			}
@@ -302,3 +305,35 @@ func runTransport(t *testing.T, name string, tp *transport) {
 func TestC14Mock(t *testing.T) { runTransport(t, "TestC14Mock", newMockTransport()) }
 func TestC14WS(t *testing.T)   { runTransport(t, "TestC14WS", newWSTransport()) }
 func TestC14GRPC(t *testing.T) { runTransport(t, "TestC14GRPC", newGRPCTransport()) }
+
+// TestC14WSDeadline: a WebSocket server with a per-write deadline (wsWriteDeadline) whose handler
+// stays idle for longer than that right before it returns. The deadline bounds single writes; it
+// must not turn the handler's result into something else: the client still gets every response
+// and then the handler's terminal result. The scripts are the ordinary ones with the idle time
+// added. A mismatch is only reported when an immediate second run of the same script shows it
+// again (on a starved machine a goroutine can sit between arming a deadline and the write for
+// longer than the deadline).
+const (
+	wsWriteDeadline = 120 * time.Millisecond
+	wsRetIdle       = 300
+)
+
+func TestC14WSDeadline(t *testing.T) {
+	tp := newWSTransportWith(wsWriteDeadline)
+	r := &kit.Runner[Script]{Name: "TestC14WSDeadline", Exec: func(sc Script, rep *kit.Report) error {
+		sc.RetIdleMs = wsRetIdle
+		first := tp.execute(sc, rep)
+		if first == nil {
+			return nil
+		}
+		if _, isViolation := first.(*kit.Violation); !isViolation {
+			return first
+		}
+		if second := tp.execute(sc, &kit.Report{}); second == nil {
+			rep.Class("deadline-mismatch-not-reproduced")
+			return nil
+		}
+		return first
+	}}
+	r.Run(t, genScript)
+}
